@@ -1663,6 +1663,13 @@ func (s *ScopedKeyManager) newAccount(ns walletdb.ReadWriteBucket,
 		return managerError(ErrDuplicateAccount, str, err)
 	}
 
+	// Check that account with the same number does not exist, otherwise
+	// its row (name and address indexes) would be overwritten.
+	if _, err := fetchAccountInfo(ns, &s.scope, account); err == nil {
+		str := "account with the same number already exists"
+		return managerError(ErrDuplicateAccount, str, nil)
+	}
+
 	// Fetch the cointype key which will be used to derive the next account
 	// extended keys
 	_, coinTypePrivEnc, err := fetchCoinTypeKeys(ns, &s.scope)
@@ -1801,6 +1808,13 @@ func (s *ScopedKeyManager) newAccountWatchingOnly(ns walletdb.ReadWriteBucket,
 	if err == nil {
 		str := "account with the same name already exists"
 		return managerError(ErrDuplicateAccount, str, err)
+	}
+
+	// Check that account with the same number does not exist, otherwise
+	// its row (name and address indexes) would be overwritten.
+	if _, err := fetchAccountInfo(ns, &s.scope, account); err == nil {
+		str := "account with the same number already exists"
+		return managerError(ErrDuplicateAccount, str, nil)
 	}
 
 	// Encrypt the default account keys with the associated crypto keys.
